@@ -117,6 +117,28 @@ run_case w4_decrst_order broken \
                     self.reflow();' w
 run_case w5_rep_col broken \
   'let char = self.buffer[(self.cursor.col - 1, self.cursor.row)].char();' 'let char = self.buffer[(self.cursor.col, self.cursor.row)].char();' w
+run_case x1_switch_primary_swap_order broken \
+  'self.active_buffer_type = BufferType::Primary;
+            mem::swap(&mut self.saved_ctx, &mut self.alternate_saved_ctx);
+            mem::swap(&mut self.buffer, &mut self.other_buffer);' 'self.active_buffer_type = BufferType::Primary;
+            mem::swap(&mut self.buffer, &mut self.other_buffer);
+            mem::swap(&mut self.buffer, &mut self.other_buffer);' w
+run_case x2_reflow_clamp_bound broken \
+  'if self.saved_ctx.cursor_col >= self.cols {' 'if self.saved_ctx.cursor_col > self.cols {' w
+run_case x3_switch_alt_no_dirty broken \
+  'self.buffer = Buffer::new(self.cols, self.rows, Some(0), Some(&self.pen));
+            self.dirty_lines.extend(0..self.rows);' 'self.buffer = Buffer::new(self.cols, self.rows, Some(0), Some(&self.pen));' w
+run_case x4_resize_margin broken \
+  'std::cmp::Ordering::Less => {
+                self.top_margin = 0;
+                self.bottom_margin = rows - 1;' 'std::cmp::Ordering::Less => {
+                self.top_margin = 0;
+                self.bottom_margin = rows;' w
+# (rejected already by the Gen/Resets.v translator, whose right-hand sides are a closed list)
+run_case x5_save_cursor_clamp terr \
+  'self.saved_ctx.cursor_col = self.cursor.col.min(self.cols - 1);' 'self.saved_ctx.cursor_col = self.cursor.col;'
+run_case x6_buffer_new_arg terr \
+  'self.buffer = Buffer::new(self.cols, self.rows, Some(0), Some(&self.pen));' 'self.buffer = Buffer::new(self.cols, self.rows, None, Some(&self.pen));'
 run_case e1_equivalent_no_max ok \
   'row = (top + row).max(top).min(bottom);' 'row = (top + row).min(bottom);'
 run_case t2_untranslatable_w terr \
